@@ -5,7 +5,7 @@
 set -u
 D=$(readlink -f "$1"); SUITE=${2:-}
 PROP=$(python3 -c "import json,sys; print(json.load(open('$D/meta.json'))['property'])")
-W=/tmp/vs; mkdir -p $W
+W=${TRY_SEED_W:-/tmp/vs}; mkdir -p $W
 if [ ! -d $W/wt ]; then git -C /repo worktree add -q --detach $W/wt HEAD; fi
 git -C $W/wt checkout -q --detach $(git -C /repo rev-parse HEAD); git -C $W/wt checkout -q -- .
 echo "== $D ($PROP)"
